@@ -2943,8 +2943,11 @@ namespace Clipper2Lib {
   {
     for (auto split : *splits)
     {
-      if (!split->pts && split->splits &&
-        CheckSplitOwner(outrec, split->splits)) return true; //#942
+      if (!split->pts && split->splits && split->recursive_split != outrec)
+      {
+        split->recursive_split = outrec; // prevent infinite loops here too
+        if (CheckSplitOwner(outrec, split->splits)) return true; //#942
+      }
       split = GetRealOutRec(split);
       if (!split || split == outrec || split->recursive_split == outrec) continue;
       split->recursive_split = outrec; // prevent infinite loops
